@@ -436,7 +436,36 @@ pub fn run(tier: &str) -> i32 {
                 }
                 let mut r = Rng::new(seed().wrapping_mul(2_000_003).wrapping_add(i as u64));
                 let n = r.range(2, 3);
-                let (seq, conc) = gen_history(&mut r, n);
+                let (mut seq, conc) = gen_history(&mut r, n);
+                // every sixth history is directed (round 11): the life of one key across a snapshot that only SOME nodes
+                // take (a snapshot asked of a secondary stays local): written once or more, snapshot at a chosen node,
+                // removed, written again in one of five ways, then a versioned write - whatever each node kept of the
+                // removed key on its disk, every node ends with the primary's value, status and version
+                if i % 6 == 5 {
+                    let any = |r: &mut Rng| if r.chance(1, 2) { r.range(1, n - 1) } else { 0 };
+                    let k = if r.chance(1, 4) { "num" } else { "k1" };
+                    let mut d: Vec<COp> = vec![];
+                    let mut push = |node: usize, line: String, kind: &'static str, key: &str| d.push(COp { node, session: 0, line, kind, key: key.to_string() });
+                    for j in 0..r.range(1, 3) {
+                        let node = any(&mut r);
+                        if k == "num" { push(node, format!("increment num {}", j + 1), "increment", k) } else { push(node, format!("set k1 first{}", j), "set", k) }
+                    }
+                    let snap_at = if r.chance(2, 3) { r.range(1, n - 1) } else { 0 };
+                    push(snap_at, "snapshot false".to_string(), "snapshot", "");
+                    push(any(&mut r), format!("remove {}", k), "remove", k);
+                    if r.chance(1, 4) {
+                        push(any(&mut r), if r.chance(1, 2) { "snapshot false".to_string() } else { "snapshot true".to_string() }, "snapshot", "");
+                    }
+                    let node = any(&mut r);
+                    match r.below(5) {
+                        0 | 1 if k != "num" => push(node, "set k1 again".to_string(), "set", k),
+                        2 if k != "num" => push(node, format!("set-safe k1 {} again", r.below(4)), "set-safe", k),
+                        _ => push(node, format!("increment {} 5", k), "increment", k),
+                    }
+                    let node = any(&mut r);
+                    if k == "num" { push(node, "increment num 1".to_string(), "increment", k) } else { push(node, format!("set-safe k1 {} later", r.below(5)), "set-safe", k) }
+                    seq = d;
+                }
                 let cross = gen_cross(&mut r);
                 // every fifth history runs on the survivors of a fail-over
                 let failover = i % 5 == 4;
